@@ -27,7 +27,7 @@ type c17case struct {
 	Levels []int  `json:"levels"`        // config index per level, top first
 	Start  int    `json:"start"`         // level index
 	Stop   string `json:"stop"`          // "L<k>" | "sibling" | "below" | "base"
-	Via    string `json:"via,omitempty"` // "alias": start and stop are given through a symlink to the chain's base
+	Via    string `json:"via,omitempty"` // "alias": start and stop are given through a symlink to the chain's base; "slash": stop has a trailing slash
 }
 
 func (cs c17case) key() string {
@@ -238,7 +238,11 @@ func c17Judge(base string, dirs []string, cs c17case, res *core.ShardResult) (vs
 			Detail: fmt.Sprintf(format, args...) + fmt.Sprintf(" [levels %v start=%s stop=%s]", cfgNames(cs.Levels), rel(base, start), rel(base, stop))})
 	}
 	res.Evaluations++
-	got, err, iters, visited, exceeded := c17Call(start, stop)
+	callStop := stop
+	if cs.Via == "slash" {
+		callStop = stop + "/" // the same directory, spelled as $HOME sometimes is
+	}
+	got, err, iters, visited, exceeded := c17Call(start, callStop)
 	if exceeded {
 		bad("terminates", "discovery did not stop within %d iterations (path depth + 1); directories visited: %v", iters-1, tailStr(visited, 6))
 		return
@@ -403,7 +407,10 @@ func c17Worker(c *core.Ctx) {
 				if len(lv) > 8 && stop != "L0" && stop != "L1" && stop != "base" && stop != "sibling" && stop != fmt.Sprintf("L%d", start) {
 					continue
 				}
-				for _, via := range []string{"", "alias"} {
+				for _, via := range []string{"", "alias", "slash"} {
+					if via == "slash" && (start+len(stop))%3 != 0 {
+						continue // the stop directory spelled with a trailing slash: a third of the cases
+					}
 					cs := c17case{Levels: lv, Start: start, Stop: stop, Via: via}
 					if wl.Begin(ci, i, func() any { return cs }) {
 						b, ds := base, dirs
